@@ -13,7 +13,7 @@
      median middle of the sorted values (mean of the two middle ones for even n)
      whist  Sum w          wmean  Sum (w v) / Sum w      wstd  sqrt(Sum w (v - wmean)^2 / Sum w)
      werr   1/sqrt(Sum w)  werr2  sqrt(Sum w^2 (v - wmean)^2) / Sum w
-   "equal" is up to binary64 rounding, 1e-9 relative to a condition-aware scale (Model.tgt). *)
+   "equal" is up to binary64 rounding, eps_tol = 1e-12 relative to a condition-aware scale (Model.tgt). *)
 From Coq Require Import PrimFloat FloatOps SpecFloat QArith Qabs Sorting.Permutation.
 From EsVerif.Common Require Import Base.
 From EsVerif.C18 Require Model.
@@ -29,8 +29,8 @@ Definition Meets_q (y : Q) (t : tgt) : Prop :=
   match t with
   | TAny => True
   | TExact q => (y == q)%Q
-  | TLin q A => close_lin y q (eps9 * A)
-  | TSqrt V A => close_sqrt y V (eps9 * (y + A))
+  | TLin q A => close_lin y q (eps_tol * A)
+  | TSqrt V A => close_sqrt y V (eps_tol * (y + A))
   end.
 
 Definition Meets (f : float) (t : tgt) : Prop :=
